@@ -283,3 +283,54 @@ def rule_wid2(prog, rep, units, rid='WID2'):
                                       '%s: %s collects %d bit(s) per iteration of the loop at line %s in a %d-bit variable and is neither flushed '
                                       'inside the loop nor is the loop bounded by %d iterations: beyond that the oldest bits are shifted out '
                                       '(the result depends on how deep / long the input is)' % (f.name, nm, k, head.line, w, limit))
+
+
+def rule_wid3(prog, rep, units, rid='WID3'):
+    """A length is not squeezed through a narrower local.  A local variable, parameter or return value of an 8-bit (or 16-bit)
+    integer type that receives a wider size value (a size_t / uint16_t expression over a `...size` quantity) silently keeps
+    the value modulo 256 (65536): every length with a multiple of that added behaves like a short one.  Accepted only when
+    the value was clamped first (`(x < K) ? x : K`, `x & mask`, or a dominating comparison is not attempted here)."""
+    from .valgraph import width_of
+    rep.rule(rid, 'a size value is not stored into a local / returned through a type narrower than the one it came from, unless clamped or masked')
+    for unit in units:
+        prog.unit(unit)
+        for f in sorted(prog.funcs_in(unit), key=lambda x: x.line or 0):
+            if f.body is None:
+                continue
+
+            def judge(dst_w, e, line, what):
+                e0 = e
+                while e0.get('kind') in ('ImplicitCastExpr', 'ParenExpr') and e0.get('inner'):
+                    if e0.get('kind') == 'ImplicitCastExpr' and e0.get('castKind') not in ('IntegralCast', 'LValueToRValue', 'NoOp'):
+                        break
+                    e0 = e0['inner'][0]
+                src_w = width_of(e0)
+                txt = canon(e0)
+                if src_w <= dst_w or 'size' not in txt or isinstance(int_value(e0), int):
+                    return
+                rep.instance(rid)
+                s0 = strip_parens(strip(e0))
+                ok = False
+                if s0.get('kind') == 'ConditionalOperator':
+                    arms = [int_value(c) for c in children(s0)[1:]]
+                    if any(isinstance(a, int) and a < (1 << dst_w) for a in arms):
+                        ok = True
+                if s0.get('kind') == 'BinaryOperator' and s0.get('opcode') in ('&', '%'):
+                    ms = [int_value(c) for c in children(s0) if isinstance(int_value(c), int)]
+                    if ms and max(ms) <= (1 << dst_w):
+                        ok = True
+                rep.oblige(rid, ok, {'function': f.name, 'line': line, 'value': txt[:50], 'from_bits': src_w, 'to_bits': dst_w})
+                if not ok:
+                    rep.violation(rid, f, line, 'narrow:%s' % txt[:24],
+                                  '%s: the %d-bit size value %s is %s a %d-bit type: sizes that differ by a multiple of %d become '
+                                  'indistinguishable' % (f.name, src_w, txt[:50], what, dst_w, 1 << dst_w))
+            for x in walk(f.body):
+                if x.get('kind') == 'VarDecl' and var_init(x) is not None:
+                    w = width_of(x)
+                    if w in (8, 16) and 'char *' not in (qtype(x) or ''):
+                        judge(w, var_init(x), x.get('_line'), 'stored into a local of')
+                elif x.get('kind') == 'ReturnStmt' and children(x):
+                    rt = (f.rettype or '').replace('const ', '').strip()
+                    w = {'uint8_t': 8, 'unsigned char': 8, 'uint16_t': 16, 'unsigned short': 16}.get(rt)
+                    if w:
+                        judge(w, children(x)[0], x.get('_line'), 'returned through')
